@@ -227,7 +227,8 @@ func checkC01(p *Program, r *Report) {
 					if iff, ok := g.Instrs[len(g.Instrs)-1].(*ssa.If); ok {
 						switch pol := debugPolarity(m, fn, iff.Cond, 0); {
 						case pol == 0:
-							why = "the handler is installed under a condition that is not the Debug option"
+							// some other condition (a case of a kind switch, an operand test): the handler is installed where the operation
+							// it is there for stands; that the operation runs under it is the next clause's business
 						case (pol < 0 && g.Succs[0] != db) || (pol > 0 && g.Succs[1] != db):
 							why = "the handler is installed only when the Debug option is set: in ordinary runs the panic of this operation is not turned into an error here (it unwinds to the invocation's boundary, past every enclosing try)"
 						}
@@ -488,6 +489,9 @@ func checkC01(p *Program, r *Report) {
 			}
 			if early {
 				continue
+			}
+			if rec != nil && !(rec.Block() == b || rec.Block().Dominates(b)) {
+				continue // a return taken before recover() is called (the Debug option leaves the panic alone): nothing was recovered
 			}
 			// on all other returns an error must have been stored on every path since the recover
 			stored := false
